@@ -212,7 +212,9 @@ def run_shard(spec):
         tg = gen.TermGen(rng, "full")
         term = tg.deferred_term(locs, rng.randrange(1, 6))
         try:
-            Shadow(world).eval(term)
+            _sh = Shadow(world)
+            _sh.guard_literals(term)
+            _sh.eval(term)
         except Exception as exc:
             if type(exc).__name__ == "Discard":
                 continue
